@@ -28,7 +28,7 @@ SPEC = {
     "harness_timeout": {"quick": 600, "thorough": 3000},
     "theorems": ["C17_exclusion", "C17_counters_exact", "C17_exclusion_state", "C17_wellbracketed_no_panic",
                  "C17_no_lost_wakeup", "C17_no_lost_wakeup_quiescent", "C17_deadlock_free",
-                 "C17_unlock_unheld_panics", "C17_unlock_held_ok", "C17_unlock_unheld_old_witness",
+                 "C17_unlock_unheld_panics", "C17_unlock_held_ok", "C17_monitor_refines_rwlock", "C17_unlock_unheld_old_witness",
                  "C17_dag_exclusion", "C17_dag_deadlock_free", "C17_dag_no_deadlock", "C17_dag_wellbracketed_no_panic",
                  "C17_dag_unlock_unheld_panics", "C17_dag_unlock_wrong_mode_old_witness",
                  "C17_wait_iff_returns_only_if", "C17_wait_iff_no_lost_wakeup", "C17_wait_iff_quiescent",
@@ -46,7 +46,7 @@ SPEC = {
         "StarvingMutex.Lock/Unlock/RLock/RUnlock as micro-steps around the internal mutex with separate Signal/Broadcast steps",
         "debug.GetEnabled() deadlock-detection goroutines are not modelled (debug mode off)",
         "DAGMutex: critical sections of d.Mutex and the unregister+unlock pair are single steps over abstract per-entity locks; "
-        "that the real per-entity StarvingMutex implements such a lock is C17_exclusion + C17_no_lost_wakeup_quiescent",
+        "that the real per-entity StarvingMutex implements such a lock is C17_monitor_refines_rwlock (safety) + C17_no_lost_wakeup_quiescent (blocked only by a holder); the composition argument itself is not mechanised",
         "Counter subscribers and Stack element values are not modelled (only the value / size)",
         "liveness is stated as invariants (every eligible waiter has a pending notifier) and absence of deadlock, not as fairness-based eventuality",
     ],
